@@ -11,6 +11,10 @@ use crate::{
 };
 use boa_macros::js_str;
 
+fn ic_name_is_length(ic: &crate::vm::inline_cache::InlineCache) -> bool {
+    ic.name == crate::string::StaticJsStrings::LENGTH
+}
+
 fn set_by_name(
     value: RegisterOperand,
     value_object: &JsValue,
@@ -71,8 +75,13 @@ fn set_by_name(
     }
 
     // Cache the property.
+    //
+    // The `length` of an array is exotic: writing it truncates or extends the elements, so it
+    // must always go through `[[DefineOwnProperty]]` and never through a raw slot write.
+    let exotic_array_length =
+        object.is_array() && ic_name_is_length(&context.vm.frame().code_block.ic[usize::from(index)]);
     let slot = *context.slot();
-    if succeeded && slot.is_cacheable() {
+    if succeeded && slot.is_cacheable() && !exotic_array_length {
         let ic = &context.vm.frame().code_block.ic[usize::from(index)];
         let object_borrowed = object.borrow();
         let shape = object_borrowed.shape();
